@@ -205,7 +205,8 @@ class BeltStore(Store):
                         
         else:# if not items succeed, belt is empty and succeed immediately
             #if self.accumulation_mode_indicator==False or (self.accumulation_mode_indicator==True and len(self.ready_items)==0):
-                if len(self.reservations_put) + len(self.items) +len(self.ready_items) < self.capacity:
+                # nothing is moving, but on a non-accumulating belt an item waiting at the exit means the belt is stopped
+                if (self.accumulation_mode_indicator or not self.ready_items) and len(self.reservations_put) + len(self.items) +len(self.ready_items) < self.capacity:
 
                     self.reservations_put.append(event)  # Add reservation
                     event.succeed()
